@@ -35,4 +35,19 @@ LEVELS = {
     },
 }
 
+LEVELS["C15"] = {
+    "text": "Bounded symbolic model checking of the calendar code (klog.Date on top of civil/time from the Go standard library, executed from SSA): for every date of each "
+            "century window the weekday, ISO week and week-year, quarter, day stepping, the four kinds of periods and their predecessors are proven equal to "
+            "independent closed-form references; bucket hashes are proven injective on their fields for the full value range in single queries; every pattern "
+            "string is accepted iff it denotes an existing period. The thorough tier covers all 100 windows, i.e. all 3,652,425 dates.",
+    "note": BASE_NOTE + " Month and day are case-split by the engine; per (month, day) the year is symbolic over its window and the standard library's "
+            "Neri-Schneider arithmetic is tabulated exactly over the year.",
+}
+LEVELS["C17"] = {
+    "text": "Bounded symbolic model checking of the clock-relative commands: hour and minute of the clock are symbolic (all 1440 minutes in one path family), "
+            "cli.Start/cli.Stop run for every rounding, date selection and file layout; success iff the rounded time is representable relative to the target "
+            "record, the written time equals the rounding oracle, failures leave the file untouched, and no path panics.",
+    "note": BASE_NOTE + " Commands are driven at Run(ctx) level with a harness app.Context (kong/argument parsing is outside).",
+}
+
 NOT_APPLICABLE = {}
